@@ -132,6 +132,7 @@ void Stats::absorb(const simsched::SchedResult &r) {
   c["probe.spurious_consumed"] += r.probe_spurious_consumed;
   if (r.preemptions > 0) c["sched.ops_with_preemption"]++;
   c["sched.ops"]++;
+  c["sched.decision_points"] += r.decision_points;
   distinct_traces.insert(r.trace_hash);
   distinct_sigs.insert(r.sync_sig);
 }
@@ -193,6 +194,29 @@ void pick_sched(Rng &g, Scn &s, int slot, int T, bool allow_faults) {
   s.i["sw" + k] = (allow_faults && g.chance(0.6)) ? 1 + (long)g.below(8) : 0;
 }
 
+void enum_sched(Rng &g, Scn &s, int slot, long j) {
+  std::string k = std::to_string(slot);
+  s.i["st" + k] = simsched::ST_ENUM;
+  s.i["sp" + k] = 0;
+  s.i["ss" + k] = 1;
+  s.i["sw" + k] = 0;
+  if (j < ENUM_SINGLE) {
+    s.i["ea" + k] = j / 3; s.i["eb" + k] = j % 3;
+    s.i["ec" + k] = -1; s.i["ed" + k] = 0;
+  } else if (j < ENUM_SINGLE + ENUM_SPUR) {
+    // one spurious wake-up at decision index q/3 of waiter q%3, no forced preemption (every single wake-up position)
+    long q = j - ENUM_SINGLE;
+    s.i["ea" + k] = -1; s.i["ec" + k] = -1;
+    s.i["ee" + k] = q / 3; s.i["ef" + k] = q % 3;
+    s.i["sw" + k] = 1;
+  } else {
+    // two events at seeded positions: two preemptions, or one preemption and one spurious wake-up
+    s.i["ea" + k] = (long)g.below(ENUM_MAXK * 2 / 3); s.i["eb" + k] = (long)g.below(3);
+    if (g.chance(0.5)) { s.i["ec" + k] = (long)g.below(ENUM_MAXK * 2 / 3); s.i["ed" + k] = (long)g.below(3); }
+    else { s.i["ec" + k] = -1; s.i["ee" + k] = (long)g.below(ENUM_MAXK * 2 / 3); s.i["ef" + k] = (long)g.below(3); s.i["sw" + k] = 1; }
+  }
+}
+
 simsched::SchedConfig sc_canonical(long nbytes, int T) {
   simsched::SchedConfig c;
   c.strategy = simsched::ST_RR;
@@ -209,6 +233,12 @@ simsched::SchedConfig sc_for(const Scn &s, int slot, long nbytes, int T) {
   if (c.strategy == simsched::ST_STICKY) c.sticky_p = sp >= 9999 ? 0.9999 : sp / 1000.0;
   if (c.strategy == simsched::ST_PCT) c.pct_depth = (int)std::max<long>(1, sp);
   if (c.strategy == simsched::ST_STARVE) c.starve_tid = (int)sp;
+  if (c.strategy == simsched::ST_ENUM) {
+    c.enum_k[0] = s.geti("ea" + k, -1); c.enum_c[0] = (int)s.geti("eb" + k, 0);
+    c.enum_k[1] = s.geti("ec" + k, -1); c.enum_c[1] = (int)s.geti("ed" + k, 0);
+    c.enum_spur_k = s.geti("ee" + k, -1); c.enum_spur_c = (int)s.geti("ef" + k, 0);
+    if (c.enum_spur_k >= 0) c.max_spurious = std::max(c.max_spurious, 1);   // replay of the recorded decisions needs the budget
+  }
   c.seed = (uint64_t)s.geti("ss" + k, 1);
   c.max_spurious = (int)s.geti("sw" + k, 0);
   c.p_spurious = 0.03;
